@@ -1,4 +1,70 @@
-(* placeholder until proofs land *)
-From PV Require Import Model.AnnotationOps.
-Theorem C19_placeholder : True. Proof. exact I. Qed.
-Print Assumptions C19_placeholder.
+(* C19  Name generators never collide; random samplers stay inside their source.
+   Statements only. Tied but not proved here: the shortlex/bijective-base-26 closed form of
+   the words themselves (the model's [word] is compared with the implementation on the first
+   800 values), to_annotation, random_segment. *)
+From PV Require Import Model.AnnotationOps Proofs.GeneratorsP Check.C19.
+
+Theorem C19_int_generator : forall n, List.length (intgen_take n) = n /\
+  forall k, (k < n)%nat -> nth k (intgen_take n) (-1) = Z.of_nat k.
+Proof. exact intgen_spec. Qed.
+Theorem C19_pairwise : forall (A : Type) (l : list A), pairwise l = combine l (tl l).
+Proof. exact @pairwise_spec. Qed.
+
+(* string_generator(skip): the unfiltered stream word 0, word 1, ... with the skipped labels
+   removed -- order kept, nothing in skip ever yielded *)
+Theorem C19_string_generator_without_skip : forall n,
+  strgen_take n [] = map (fun k => word (Z.of_nat k)) (seq 0 n).
+Proof. exact strgen_noskip. Qed.
+Theorem C19_string_generator_never_yields_skipped : forall n skip w,
+  In w (strgen_take n skip) -> str_in w skip = false.
+Proof. exact strgen_never_yields_skipped. Qed.
+Theorem C19_string_generator_is_filtered_stream : forall n skip,
+  exists idx, strgen_take n skip = map word idx /\ increasing_from 0 idx /\
+              forall j, In j idx -> str_in (word j) skip = false.
+Proof. exact strgen_is_filtered_stream. Qed.
+
+(* Annotation.new_track: the candidate when free, else an unused name: prefix + least free integer *)
+Theorem C19_new_track : forall a s candidate prefix,
+  let existing := get_tracks a s in
+  let r := new_track a s candidate prefix in
+  (forall c, candidate = Some c -> ~ In c existing -> r = c) /\
+  ((candidate = None \/ exists c, candidate = Some c /\ In c existing) -> ~ In r existing).
+Proof. exact new_track_spec. Qed.
+Theorem C19_generated_name_is_least_free : forall prefix existing,
+  exists k, 0 <= k /\ first_free (List.length existing) prefix 0 existing = cand prefix k /\
+            forall j, 0 <= j < k -> In (cand prefix j) existing.
+Proof. exact first_free_least. Qed.
+Theorem C19_generated_name_is_fresh : forall prefix existing,
+  ~ In (first_free (List.length existing) prefix 0 existing) existing.
+Proof. exact first_free_fresh. Qed.
+
+(* random_subsegment, for every random draw u = k/1024 in [0, 1) *)
+Theorem C19_subsegment_fixed_duration : forall eps s dur k1 k2 r, 0 <= eps -> nonempty eps s = true ->
+  0 <= k1 < 1024 -> 0 <= dur -> subseg s dur None k1 k2 eps = Some r ->
+  st s * 1048576 <= st r /\ en r <= en s * 1048576 /\ en r - st r = dur * 1048576.
+Proof. exact subseg_fixed_inside. Qed.
+Theorem C19_subsegment_rejects_long_duration : forall eps s dur k1 k2, nonempty eps s = true ->
+  (subseg s dur None k1 k2 eps = None <-> dur > en s - st s).
+Proof. exact subseg_rejects_long. Qed.
+Theorem C19_subsegment_min_duration : forall eps s dur md k1 k2 r, 0 <= eps -> nonempty eps s = true ->
+  0 <= k1 < 1024 -> 0 <= k2 < 1024 -> 0 <= md <= dur -> subseg s dur (Some md) k1 k2 eps = Some r ->
+  st s * 1048576 <= st r /\ en r <= en s * 1048576 /\ md * 1048576 <= en r - st r <= dur * 1048576.
+Proof. exact subseg_min_inside. Qed.
+
+Example C19_nonvacuous :
+  strgen_take 5 ["A"; "C"]%string = ["B"; "D"; "E"; "F"; "G"]%string /\
+  word 26 = "AA"%string /\ word 701 = "ZZ"%string /\ word 702 = "AAA"%string /\
+  first_free 3 "T" 0 [NStr "T0"; NStr "x"; NStr "T1"] = NStr "T2".
+Proof. vm_compute. repeat split. Qed.
+
+Print Assumptions C19_int_generator.
+Print Assumptions C19_pairwise.
+Print Assumptions C19_string_generator_without_skip.
+Print Assumptions C19_string_generator_never_yields_skipped.
+Print Assumptions C19_string_generator_is_filtered_stream.
+Print Assumptions C19_new_track.
+Print Assumptions C19_generated_name_is_least_free.
+Print Assumptions C19_generated_name_is_fresh.
+Print Assumptions C19_subsegment_fixed_duration.
+Print Assumptions C19_subsegment_rejects_long_duration.
+Print Assumptions C19_subsegment_min_duration.
